@@ -88,7 +88,11 @@ type runner struct {
 func noneResp() M { return M{"none": true} }
 
 func obsOf(notes *Notes) M {
-	return M{"malformed": notes.Malformed, "offlattice": notes.OffLattice, "extra": notes.Extra, "overflow": notes.Overflow}
+	o := M{"malformed": notes.Malformed, "offlattice": notes.OffLattice, "extra": notes.Extra, "overflow": notes.Overflow}
+	if notes.IDCheck != nil {
+		o["idcheck"] = notes.IDCheck
+	}
+	return o
 }
 
 func (r *runner) observe(ob M) *State {
@@ -266,7 +270,12 @@ func (r *runner) step(m M) {
 				r.digests = append(r.digests, "block:"+closed)
 			}
 		}
-		hash, p := r.app.BeginBlock(TickTime(int(num(m, "t"))))
+		bt := TickTime(int(num(m, "t")))
+		if r.b.Family == "intertx" {
+			// real block times have a sub-second part; the packet timeout is relative to the exact block time
+			bt = bt.Add(time.Duration((r.b.Seed*7919+int64(num(m, "t"))*104729)%1000000000) * time.Nanosecond)
+		}
+		hash, p := r.app.BeginBlock(bt)
 		if hash != "" {
 			r.digests = append(r.digests, "block:"+hash)
 		}
